@@ -336,7 +336,7 @@ def c07():
         for mode in (0,):  # remove_col with a 64-slot buffer exhausts CBMC's memory on every shape: not registered
             add("C07", f"c07_{RMODES[mode]}_tok_bigcap_{c}x{r}", f"c07::remove_tok_bigcap({mode}, {c}, {r})", c * r + max(c, r) + 3, "quick" if (c, r) == (3, 2) else "thorough", also=["C05"])
     for cap in (16, 32):
-        add("C07", f"c07_remove_col_tok_cap{cap}_2x2", f"c07::remove_tok_cap(2, 2, 2, {cap})", 9, "quick" if cap == 32 else "thorough", also=["C05"])
+        add("C07", f"c07_remove_col_tok_cap{cap}_2x2", f"c07::remove_tok_cap(2, 2, 2, {cap})", 9, "quick" if cap == 16 else "thorough", also=["C05"])
     add("C07", "c07_pop_empty", "c07::pop_empty()", 4, also=["C01"])
     for (c, r) in [(2, 3), (1, 1), (0, 0)]:
         for is_row in (True, False):
